@@ -4,11 +4,11 @@ package main
 // load/store through lvalues; merging at control-flow joins.
 
 import (
+	"strings"
 	"fmt"
 	"go/types"
 	"math/big"
 	"sort"
-	"strings"
 )
 
 type big0 = big.Int
@@ -231,6 +231,11 @@ func (ex *Exec) load(st *State, lv *LValue) Val {
 		out.L[i] = t
 	}
 	if lv.Kind != lvCell && ex.sc.pure == 0 {
+		ex.assumeWF(st, out)
+	} else if lv.Kind != lvCell && groundTerms(out.L) {
+		// a load made while evaluating a specification: the loaded value is as
+		// well-formed as one loaded by the code (ground terms only; nothing is
+		// assumed about terms under a binder)
 		ex.assumeWF(st, out)
 	}
 	return out
@@ -548,4 +553,13 @@ func (ex *Exec) guardAccess(st *State, comp, ref string, write bool) {
 		return
 	}
 	ex.guardCheck(ex.curFrame, st, ex.curReach, comp, ref, ex.curInstr.Pos(), write)
+}
+
+func groundTerms(ts []string) bool {
+	for _, t := range ts {
+		if strings.Contains(t, "qv_") || strings.Contains(t, "ql_") {
+			return false
+		}
+	}
+	return true
 }
